@@ -77,6 +77,7 @@ func (c C19) Run(t *tape.Tape, opt core.RunOpt) (res core.Result) {
 	var live []int // model: live subscriptions in registration order
 	sends := map[int]int{}
 	cleaned := map[int]int{}
+	removed := map[int]int{} // registry entries removed so far, per subscriber object
 	nextSid, nextEv := 1, 1
 	nops := 5 + t.Draw(36)
 	var hist []string
@@ -98,8 +99,21 @@ func (c C19) Run(t *tape.Tape, opt core.RunOpt) (res core.Result) {
 	for i := 0; i < nops; i++ {
 		env.log = env.log[:0]
 		switch k := t.Draw(10); {
+		case k < 4 && len(live) > 0 && t.Bool(1, 6): // the same subscriber object subscribes once more
+			sid := live[t.Draw(len(live))]
+			out := w.Subscribe(sid)
+			hist = append(hist, fmt.Sprintf("subscribe again (sub %d: one subscriber object behind another registry entry) -> %s", sid, out))
+			if out != `{"data":null}` {
+				fail("subscribe_failed", "subscription request of subscriber %d returned %s", sid, out)
+				return
+			}
+			live = append(live, sid)
+			res.Count("probe_one_subscriber_behind_two_entries", 1)
 		case k < 4: // subscribe
 			sb := &workload.SimSub{ID: nextSid, Topic: topic(), SelIndex: t.Draw(len(workload.SubSelections)), Alias: t.Bool(1, 3), Named: t.Bool(1, 3), UseVar: t.Bool(1, 2)}
+			if t.Bool(1, 4) {
+				sb.Wrap = 1 + t.Draw(3)
+			}
 			nextSid++
 			if t.Bool(1, 3) {
 				sb.FailFrom = 1 + t.Draw(3)
@@ -134,10 +148,11 @@ func (c C19) Run(t *tape.Tape, opt core.RunOpt) (res core.Result) {
 				perr = e != nil
 			}
 			// model
-			var exp []int
-			for _, sid := range live {
+			var exp, expIdx []int
+			for li, sid := range live {
 				if subMatches(w.Subs[sid], tp) {
 					exp = append(exp, sid)
+					expIdx = append(expIdx, li)
 				}
 			}
 			if len(exp) >= 2 {
@@ -147,17 +162,22 @@ func (c C19) Run(t *tape.Tape, opt core.RunOpt) (res core.Result) {
 			var failed []int
 			var gotClean []int
 			bad := ""
+			failedIdx := map[int]bool{} // registry entries (indexes into live) whose delivery failed
 			resolveErrs := 0 // selections applied to an event whose msg field fails to resolve
 			for _, e := range env.log {
 				p := strings.SplitN(e.Detail, "|", 3)
 				sid, _ := strconv.Atoi(p[0])
 				switch e.Kind {
 				case "Send":
-					gotSend = append(gotSend, sid)
-					sends[sid]++
 					if p[1] == "fail" {
 						failed = append(failed, sid)
+						// the j-th delivery of a publish goes to the j-th live matching entry
+						if len(gotSend) < len(expIdx) {
+							failedIdx[expIdx[len(gotSend)]] = true
+						}
 					}
+					gotSend = append(gotSend, sid)
+					sends[sid]++
 					want, rerr := w.Expect(w.Subs[sid], n)
 					if rerr {
 						resolveErrs++
@@ -212,14 +232,10 @@ func (c C19) Run(t *tape.Tape, opt core.RunOpt) (res core.Result) {
 				return
 			}
 			var rest []int
-			for _, sid := range live {
-				f := false
-				for _, x := range failed {
-					if x == sid {
-						f = true
-					}
-				}
-				if !f {
+			for li, sid := range live {
+				if failedIdx[li] {
+					removed[sid]++
+				} else {
 					rest = append(rest, sid)
 				}
 			}
@@ -231,6 +247,7 @@ func (c C19) Run(t *tape.Tape, opt core.RunOpt) (res core.Result) {
 			for _, sid := range live {
 				if subMatches(w.Subs[sid], tp) {
 					exp = append(exp, sid)
+					removed[sid]++
 				} else {
 					rest = append(rest, sid)
 				}
@@ -262,8 +279,10 @@ func (c C19) Run(t *tape.Tape, opt core.RunOpt) (res core.Result) {
 			live = rest
 		}
 		for sid, n := range cleaned {
-			if n > 1 {
-				fail("cleanup_called_twice", "clean-up of subscriber %d was called %d times", sid, n)
+			// once per removed registry entry (a subscriber object can stand behind
+			// several entries)
+			if n > removed[sid] {
+				fail("cleanup_called_twice", "clean-up of subscriber %d was called %d times, %d of its registry entries were removed", sid, n, removed[sid])
 				return
 			}
 		}
